@@ -75,15 +75,15 @@ Qed.
 
 (* ------------------------------------------------------------------ the stdout checker accepts the model's stdout *)
 Definition small_figures (tbl : list node) : Prop :=
-  forall n f, In n tbl -> f <> F_call -> fld_value f n < 1440000000000.
+  forall n f, In n tbl -> f <> F_call -> fld_value f n < 3600000000000000.
 
-Lemma ok_show_model f n : (f <> F_call -> fld_value f n < 1440000000000) -> ok_show f n (show f n) = true.
+Lemma ok_show_model f n : (f <> F_call -> fld_value f n < 3600000000000000) -> ok_show f n (show f n) = true.
 Proof.
   intro H. destruct f; cbn [ok_show show]; try (apply fmt_time_ok, H; discriminate).
   apply N.eqb_refl.
 Qed.
 
-Lemma ok_cells_model fs n : (forall f, f <> F_call -> fld_value f n < 1440000000000) ->
+Lemma ok_cells_model fs n : (forall f, f <> F_call -> fld_value f n < 3600000000000000) ->
   ok_cells fs n (map (fun f => show f n) fs) = true.
 Proof.
   intro H. induction fs as [|f t IH]; cbn [map ok_cells]; [reflexivity|].
